@@ -1195,7 +1195,11 @@ footnote * footnote_new(const char * source, token * label, token * content, boo
 						}
 					}
 
+					// The content may be in the middle of a chain that stays in the
+					// document's tree (inline glossary / abbreviation) -- keep its back link
+					walker = content->prev;
 					f->content = token_new_parent(content, BLOCK_PARA);
+					content->prev = walker;
 					f->free_para = true;
 					break;
 			}
